@@ -10,6 +10,7 @@
    monotonicity, eigenstate at full bond dimension, penalty terms. *)
 From Coq Require Import List ZArith Bool.
 From Yv Require Import Sweep.Sweep Gen.SweepGen Sweep.SweepBase Sweep.SweepDmrg.
+From Yv Require Base.Deleg Gen.DelegGen.
 Import ListNotations.
 Open Scope Z_scope.
 
@@ -38,8 +39,14 @@ Example C09_detects_missing_update :
   ok (dmrg_run true 5 [M1; M2; M2; M1] (ready_state 5)) = true.
 Proof. vm_compute. repeat split; reflexivity. Qed.
 
+(* --- options are handed down under their own names (facts regenerated from the source on every run by tools/translate/tr_deleg.py): dmrg_ and its sweeps pass opts_eigs / opts_svd / precompute on under their own names --- *)
+Theorem C09_options_forwarded :
+  Deleg.deleg_ok Deleg.pre_dmrg DelegGen.delegations DelegGen.allowed = true /\ Nat.ltb 0 (Deleg.n_facts Deleg.pre_dmrg DelegGen.delegations) = true.
+Proof. split; vm_compute; reflexivity. Qed.
+
 Print Assumptions C09_sweep_1site.
 Print Assumptions C09_sweep_1site_precompute.
 Print Assumptions C09_sweep_2site.
 Print Assumptions C09_sweep_2site_precompute.
 Print Assumptions C09_all_reads_fresh.
+Print Assumptions C09_options_forwarded.
